@@ -15,7 +15,7 @@ RULE = ("35 indicator models against the implementation, bit-for-bit incl. every
 ASSUMPTIONS = ["signals are recomputed from the values the implementation returned, so no rounding tolerance is involved except for "
                "Bollinger's proportional strength (one strength unit)",
                "signals that depend on internal state not visible in the values (pivot detectors of Coppock/HullMA/Awesome/Trix, "
-               "Kaufman's filter, ChandeKroll, PivotReversal, TrendStrengthIndex) are covered by the bit-exact model only"]
+               "Kaufman's filter, ChandeKroll, PivotReversal) are covered by the bit-exact model only"]
 TRUSTED_EXTRA = []
 
 
@@ -267,6 +267,25 @@ def rules(name, cfg, c0, cs):
             s2 = (1 if s1 < 0 and v[0] > zone and v[1] > zone else 0) - (1 if s1 > 0 and v[0] < -zone and v[1] < -zone else 0)
             return [s1, s2]
         return f
+    if name == "TrendStrengthIndex":
+        # documented: #1 full NEGATIVE when the value crosses the upper zone downwards, full POSITIVE when it crosses the lower zone
+        # upwards; #2 full POSITIVE when the value is below the lower zone and turns upwards, full NEGATIVE when it is above the
+        # upper zone and turns downwards (turn = pivot of the value, confirmed `right` = 2 bars later; the value at the pivot counts)
+        zone = z("zone")
+        a, b = X(), X()
+        pv = Pivot(1, 2, 0.0)
+        hist = []
+
+        def f(t, v, c):
+            hist.append(v[0])
+            s1 = b.above(v[0], -zone) - a.under(v[0], zone)
+            r = pv.next(v[0])
+            at = hist[t - 2] if t >= 2 else 0.0
+            s2 = (1 if (r > 0 and at <= -zone) else 0) - (1 if (r < 0 and at >= zone) else 0)
+            if not all(math.isfinite(x) for x in hist[-4:]):
+                return [None, None]
+            return [s1, s2]
+        return f
     if name == "BollingerBands":
         src = cfg["source"][1]
 
@@ -356,6 +375,10 @@ def run(ctx):
     # witness of the listed finding KF-C06-keltner-polarity (runs on every check)
     cases.append(SCase(tabs["KeltnerChannel"], [("ma", "sma-2"), ("sigma", "0.5")], (10.0, 10.0, 10.0, 10.0, 1.0),
                        [(10.0, 10.0, 9.0, 9.0, 1.0), (9.0, 30.0, 9.0, 30.0, 1.0)], "known-finding-witness"))
+    # witness of the listed finding KF-C06-tsx-signals
+    fl = lambda x: (x, x, x, x, 1.0)
+    cases.append(SCase(tabs["TrendStrengthIndex"], [("period", "3"), ("reverse_offset", "1"), ("zone", "0.5")], fl(2.0),
+                       [fl(6.0), fl(4.0), fl(1.0), fl(6.0)], "known-finding-witness"))
     ctx.run_suite("indicator-signals", cases, HEADER, per_shard=3, theorem="Properties/C06.v")
     ctx.extra["indicators_with_signal_oracle"] = sorted(n for n in im.MODELS if rules(n, im.eff_config(tabs[n], []), (1, 1, 1, 1, 1), []) is not None)
 
